@@ -207,3 +207,13 @@ func VH_C04_matchesname_is_label_and_type() {
 	err := VerifyLeafFormat(leaf, VerifyOptions{Name: want})
 	verifAssert((err == nil) == verifAnd(leaf.Type == Leaf, c04NameMatches(leaf, want)), "C04: VerifyLeafFormat accepts exactly leaf-type certificates carrying the requested name")
 }
+
+// C01 rests on the same chain predicate ("a certificate chain that verifies
+// for the expected name under the trust configuration").
+//
+//verif:prop C01
+//verif:replay none
+//verif:bounds as VH_C04_verifyleaf_iff_valid_chain
+//verif:cover accepted;rejected-type;rejected-name;rejected-time;rejected-unknown;rejected-signature
+//verif:timeout 600
+func VH_C01_chain_verifies_iff_valid() { c04Iff(2) }
